@@ -96,3 +96,4 @@ def run(ctx, rep):
     from rules import pipeline_rules as _P
     _P.sink_immediate(rep, lib)
     PG.recover_consumes(rep, ctx)
+    PG.resync_one_byte(rep, ctx)
